@@ -537,6 +537,16 @@ pub fn gen_problem(rng: &mut Rng, cfg: &GenCfg) -> SProblem {
             let mut places = vec![gen_place(rng, cfg.tags.then(|| "a".to_string()))];
             if cfg.alt_places && rng.chance(1, 3) {
                 places.push(gen_place(rng, cfg.tags.then(|| "b".to_string())));
+                // partly tagged alternatives (told apart by their locations): the tag index must be the place index
+                if places[0].loc != places[1].loc && rng.chance(1, 2) {
+                    if rng.chance(1, 2) {
+                        places[0].tag = None;
+                        places[1].tag = Some("b".to_string());
+                    } else {
+                        places[0].tag = Some("a".to_string());
+                        places[1].tag = None;
+                    }
+                }
             }
             let demand = if kind == "service" { vec![] } else { gen_demand(rng) };
             let order = (cfg.order && rng.chance(1, 2)).then(|| rng.range(1, 3));
